@@ -425,9 +425,10 @@ func otlMutate(r *Rng, b []byte) ([]byte, string) {
 
 func areaOtl(c *Ctx) {
 	r := c.Rng
-	nCov := c.N * 30 / 100
-	nCd := c.N * 25 / 100
-	nLL := c.N - nCov - nCd
+	nCov := c.N * 25 / 100
+	nCd := c.N * 20 / 100
+	nGsub := c.N * 20 / 100
+	nLL := c.N - nCov - nCd - nGsub
 
 	// ---- coverage
 	special := [][]otlRun{
@@ -581,6 +582,11 @@ func areaOtl(c *Ctx) {
 		c.Stat("classdef.crafted", outcomeClass(o))
 	}
 
+	// ---- GSUB subtables
+	for i := 0; i < nGsub; i++ {
+		otlGenGsub(c, i)
+	}
+
 	// ---- lookup lists
 	for i := 0; i < nLL; i++ {
 		line, info := otlGenLL(r, i)
@@ -617,6 +623,223 @@ func areaOtl(c *Ctx) {
 			} else {
 				c.Case(Direct, "otl.ll.prop", fmt.Sprintf("ll=%s ext=%d sum=%s", line, ext, otlShowBytes(b)), true)
 			}
+		}
+	}
+}
+
+// ---------------------------------------------------------------- GSUB subtables
+
+func otlParseSeqs(s string) [][]glyph.ID {
+	if s == "" {
+		return nil
+	}
+	var out [][]glyph.ID
+	for _, t := range strings.Split(s, "|") {
+		var r []glyph.ID
+		if t != "-" {
+			for _, x := range strings.Split(t, ".") {
+				v, _ := strconv.Atoi(x)
+				r = append(r, glyph.ID(v))
+			}
+		}
+		if r == nil {
+			r = []glyph.ID{}
+		}
+		out = append(out, r)
+	}
+	return out
+}
+
+func otlShowSeqs(l [][]glyph.ID) string {
+	parts := make([]string, len(l))
+	for i, r := range l {
+		if len(r) == 0 {
+			parts[i] = "-"
+			continue
+		}
+		q := make([]string, len(r))
+		for k, g := range r {
+			q[k] = strconv.Itoa(int(g))
+		}
+		parts[i] = strings.Join(q, ".")
+	}
+	return strings.Join(parts, "|")
+}
+
+func otlGids(l []glyph.ID) string {
+	x := make([]int, len(l))
+	for i, g := range l {
+		x[i] = int(g)
+	}
+	return ints(x)
+}
+
+func otlGsubFromFields(f Fields) gtab.Subtable {
+	cov := otlCovFromRuns(otlParseRuns(f["cov"], false))
+	switch f["st"] {
+	case "11":
+		return &gtab.Gsub1_1{Cov: cov.ToSet(), Delta: glyph.ID(f.Int("delta"))}
+	case "12":
+		var subs []glyph.ID
+		for _, x := range f.Ints("subs") {
+			subs = append(subs, glyph.ID(x))
+		}
+		return &gtab.Gsub1_2{Cov: cov, SubstituteGlyphIDs: subs}
+	case "21":
+		return &gtab.Gsub2_1{Cov: cov, Repl: otlParseSeqs(f["seqs"])}
+	case "31":
+		return &gtab.Gsub3_1{Cov: cov, Alternates: otlParseSeqs(f["seqs"])}
+	}
+	panic("bad st")
+}
+
+func otlShowSubtable(st gtab.Subtable) string {
+	switch t := st.(type) {
+	case *gtab.Gsub1_1:
+		return fmt.Sprintf("1.1;cov=%s;delta=%d", otlGids(t.Cov.Glyphs()), t.Delta)
+	case *gtab.Gsub1_2:
+		return fmt.Sprintf("1.2;cov=%s;subs=%s", otlShowCov(t.Cov), otlGids(t.SubstituteGlyphIDs))
+	case *gtab.Gsub2_1:
+		return fmt.Sprintf("2.1;cov=%s;seqs=%s", otlShowCov(t.Cov), otlShowSeqs(t.Repl))
+	case *gtab.Gsub3_1:
+		return fmt.Sprintf("3.1;cov=%s;seqs=%s", otlShowCov(t.Cov), otlShowSeqs(t.Alternates))
+	}
+	return fmt.Sprintf("other:%T", st)
+}
+
+func init() {
+	ops["otl.gsub.encode"] = func(f Fields) string {
+		st := otlGsubFromFields(f)
+		n := -1
+		if guard(func() string { n = gtab.VerifSubtableEncodeLen(st); return "" }) != "" {
+			return "panic"
+		}
+		out := canonPanic(guard(func() string { return "ok:" + otlShowBytes(gtab.VerifSubtableEncode(st)) }))
+		return fmt.Sprintf("%s;len=%d", out, n)
+	}
+	ops["otl.gsub.prop"] = func(f Fields) string {
+		return canonPanic(guard(func() string {
+			if hx(gtab.VerifSubtableEncode(otlGsubFromFields(f))) != f["data"] {
+				return "stale-case"
+			}
+			return "ok"
+		}))
+	}
+	ops["otl.gsub.read"] = func(f Fields) string {
+		return canonPanic(guard(func() string {
+			st, err := gtab.VerifReadGsubSubtable(f.Hex("data"), 0, uint16(f.Int("type")))
+			if err != nil {
+				return errKind(err)
+			}
+			return "ok:" + otlShowSubtable(st)
+		}))
+	}
+}
+
+func otlGenSeq(r *Rng, long bool) []glyph.ID {
+	n := Pick(r, []int{0, 1, 1, 1, 2, 2, 3, 4, 6})
+	if long {
+		n = r.Range(5, 40)
+	}
+	out := make([]glyph.ID, n)
+	for i := range out {
+		out[i] = glyph.ID(Pick(r, []int{0, 1, 65535, r.Intn(65536), r.Intn(300)}))
+	}
+	return out
+}
+
+// otlGenGsub writes the cases for one GSUB subtable.
+func otlGenGsub(c *Ctx, i int) {
+	r := c.Rng
+	st := Pick(r, []string{"11", "12", "12", "21", "21", "31"})
+	var rs []otlRun
+	for {
+		rs = otlGenRuns(r, false)
+		if otlCountGlyphs(rs) <= 1500 {
+			break
+		}
+	}
+	n := otlCountGlyphs(rs)
+	args := ""
+	what := "regular"
+	switch {
+	case i < 4: // the coverage offset at the 16-bit boundary: 65534 is written, 65536 is refused
+		st = Pick(r, []string{"12", "21", "31"})
+		if st == "12" {
+			n = 32764 + i%2 // covOffs = 6 + 2n = 65534 / 65536
+			rs = []otlRun{{0, n - 1, 0}}
+		} else {
+			// 6 + 2c + sum(2 + 2 len) with c sequences of length 10: 6 + 24c
+			cnt := 2730 // 6 + 24*2730 = 65526
+			rs = []otlRun{{0, cnt - 1, 0}}
+			n = cnt
+		}
+		what = "boundary"
+	case r.Chance(1, 12):
+		what = "count-mismatch"
+	}
+	c.Stat("gsub.kind", st+":"+what)
+	c.Stat("gsub.cov-glyphs", bucket(n))
+	switch st {
+	case "11":
+		args = fmt.Sprintf("st=11 cov=%s delta=%d", otlRunsString(rs, false), Pick(r, []int{0, 1, 65535, r.Intn(65536)}))
+	case "12":
+		m := n
+		if what == "count-mismatch" {
+			m = max(0, n+Pick(r, []int{-2, -1, 1, 3}))
+		}
+		subs := make([]int, m)
+		for k := range subs {
+			subs[k] = r.Intn(65536)
+		}
+		args = fmt.Sprintf("st=12 cov=%s subs=%s", otlRunsString(rs, false), ints(subs))
+	default:
+		m := n
+		if what == "count-mismatch" {
+			m = max(0, n+Pick(r, []int{-2, -1, 1, 3}))
+		}
+		seqs := make([][]glyph.ID, m)
+		for k := range seqs {
+			seqs[k] = otlGenSeq(r, r.Chance(1, 30))
+		}
+		if what == "boundary" {
+			for k := range seqs {
+				seqs[k] = make([]glyph.ID, 10)
+				for q := range seqs[k] {
+					seqs[k][q] = glyph.ID(r.Intn(65536))
+				}
+			}
+			// total = 65526 + 2*extra: 65534 (written) or 65536 (refused)
+			extra := 4 + i%2
+			seqs[r.Intn(m)] = append(seqs[r.Intn(m)][:10:10], make([]glyph.ID, extra)...)
+		}
+		args = fmt.Sprintf("st=%s cov=%s seqs=%s", st, otlRunsString(rs, false), otlShowSeqs(seqs))
+	}
+	out := c.Case(Verdict, "otl.gsub.encode", args, true)
+	c.Stat("gsub.encode-outcome", outcomeClass(out))
+	if !strings.HasPrefix(out, "ok:") {
+		return
+	}
+	f := parseFields(args)
+	b := gtab.VerifSubtableEncode(otlGsubFromFields(f))
+	c.Stat("gsub.bytes", bucket(len(b)))
+	tp := map[string]int{"11": 1, "12": 1, "21": 2, "31": 3}[st]
+	if what != "count-mismatch" && len(b) <= 30000 {
+		c.Case(Direct, "otl.gsub.prop", args+" data="+hx(b), true)
+	}
+	if len(b) <= 30000 || what == "boundary" {
+		c.Case(Verdict, "otl.gsub.read", fmt.Sprintf("type=%d data=%s", tp, hx(b)), true)
+	}
+	if len(b) <= 8000 {
+		for k := 0; k < 3; k++ {
+			m, mw := otlMutate(r, b)
+			t2 := tp
+			if r.Chance(1, 6) {
+				t2 = r.Range(1, 3)
+			}
+			c.Stat("gsub.mutation", mw)
+			o := c.Case(Verdict, "otl.gsub.read", fmt.Sprintf("type=%d data=%s", t2, hx(m)), true)
+			c.Stat("gsub.read-outcome", outcomeClass(o))
 		}
 	}
 }
